@@ -61,6 +61,8 @@ def clsOfName (s : String) : Option Cls :=
 def fErr : Err → String
   | .valueError => "err ValueError"
   | .typeError => "err TypeError"
+  | .indexError => "exc IndexError"
+  | .notImplementedError => "exc NotImplementedError"
 
 def fExA2 : Except Err Aff2 → String
   | .ok m => "ok " ++ fA2 m
